@@ -63,13 +63,15 @@ def run(ctx):
 
     jobs = []
     # 1. exhaustive check of the round rules
-    mcs = [H.hc_params("off", "C28", maxtime=109), H.hc_params("hard", "C28", maxtime=108), H.hc_params("gradual", "C28", maxtime=108),
+    mcs = [H.hc_params("off", "C28", maxtime=109), H.hc_params("hard", "C28", maxtime=108),
+           H.hc_params("gradual", "C28", maxtime=104, downafter=4, maxlevel=3),
            H.hc_params("off", "C28", maxtime=108, downafter=4, sbm=0, healthsql="FALSE"), H.hc_params("off", "C28", maxtime=108, hasmaster="FALSE")]
     if thorough:
-        mcs = [H.hc_params("off", "C28", maxtime=116), H.hc_params("hard", "C28", maxtime=112), H.hc_params("gradual", "C28", maxtime=112),
+        mcs = [H.hc_params("off", "C28", maxtime=116, syncs="Syncs"), H.hc_params("hard", "C28", maxtime=112),
+               H.hc_params("gradual", "C28", maxtime=105, downafter=4),
                H.hc_params("off", "C28", maxtime=112, downafter=4, sbm=0, healthsql="FALSE"), H.hc_params("off", "C28", maxtime=112, hasmaster="FALSE"),
-               H.hc_params("hard", "C28", maxtime=110, downafter=4), H.hc_params("gradual", "C28", maxtime=110, downafter=4, healthsql="FALSE"),
-               H.hc_params("gradual", "C28", maxtime=110, hasmaster="FALSE", sbm=0)]
+               H.hc_params("hard", "C28", maxtime=108, downafter=4), H.hc_params("gradual", "C28", maxtime=104, downafter=4, maxlevel=3, healthsql="FALSE"),
+               H.hc_params("gradual", "C28", maxtime=104, downafter=4, maxlevel=3, hasmaster="FALSE", sbm=0)]
     for p in mcs:
         jobs.append(dict(module="HealthCheck", cfg_text=H.HC_MC % p, coverage=True, workers=4 if thorough else 2,
                          label="mc rounds policy=%(policy)s downafter=%(downafter)d sbm=%(sbm)d healthsql=%(healthsql)s hasmaster=%(hasmaster)s" % p))
